@@ -1,3 +1,28 @@
 package sim
 
-func runTunnelTCP(r *tunRun) {}
+import (
+	"fmt"
+
+	"github.com/vapourismo/knx-go/knx"
+	"github.com/vapourismo/knx-go/knx/knxnet"
+)
+
+// runTunnelTCP: the same workload over a TCP tunnel (no acknowledgements, no sequence numbers).
+func runTunnelTCP(r *tunRun) {
+	e, c := r.e, r.c
+	gw, lis := newTCPGateway(e, gwIP, gwPort)
+	r.gw = gw
+	gw.StartTCP(lis)
+	tun, err := knx.NewTunnel(fmt.Sprintf("%s:%d", gwIP, gwPort), knxnet.TunnelLayerData, knx.TunnelConfig{
+		ResendInterval: c.R, HeartbeatInterval: c.H, ResponseTimeout: c.T, SendLocalAddress: c.LocalAddr, UseTCP: true,
+	})
+	r.h.Created = e.Stamp()
+	if err != nil {
+		e.Violate("C03", "tcp-connect-failed", "NewTunnel over a lossless TCP stream failed: %v", err)
+		return
+	}
+	r.tun = tun
+	r.startWorkload()
+	r.finish()
+	checkTunnel(r)
+}
